@@ -465,3 +465,70 @@ def rule_if_regfresh(cx, rep, port):
                 break
         rep.decide(bad is None, '{}.{}'.format(m, q), fd, 'every returned iterator is constructed by this call', 'the registry can return `{}`, an iterator that was not constructed by this call: two requests (input side and join side of a self join, or two queries) then share one cursor/position and one variable prefix'.format(bad[1] if bad else ''))
     rep.require_count('table registries', n, 3 if port == 'py' else 2, (p.files[cx.engine_mod(port)], 0))
+
+
+NAME_PARSERS = ('parse_dictionary_variables', 'parse_attribute_variables', 'map_variables_directly')
+POS_PARSERS = ('parse_basic_variables', 'parse_array_variables')
+
+
+def rule_if_varmap(cx, rep, port):
+    """every iterator's get_variables_map registers the positional variables (a1, a[1]) always and the name-based ones (a.name,
+    a["name"]) whenever the table has column names - and on nothing else (an empty table with names, a particular record count,
+    a policy): otherwise the same query binds differently, or fails to parse, through one front end only.  Decided on the path
+    summaries of each get_variables_map (helpers inlined)."""
+    from .. import pathsem
+    p = cx.port(port)
+    n = 0
+    for c in roles.iterators(p):
+        ms = roles.methods(c)
+        if 'get_variables_map' not in ms or c.name == 'RBQLInputIterator':
+            continue
+        fd = ms['get_variables_map']
+        key = '{}.{}.get_variables_map'.format(c.modname, c.name)
+        calls_all = [x for x in walk_no_nested(fd) if isinstance(x, ast.Call)]
+        name_calls = [x for x in calls_all if (call_name(x) or '').split('.')[-1] in NAME_PARSERS]
+        if not name_calls:
+            rep.undecided(key, fd, 'no name-based variable parser is called: whether this iterator has column names at all is not decided here')
+            continue
+        ps = pathsem.paths(fd)
+        if ps is None:
+            rep.undecided(key, fd, 'get_variables_map is not summarisable as paths')
+            continue
+        n += 1
+        # what stands for "the column names" in this class: the names argument of the parser calls, plus the header flag
+        sources = {'self.has_header'}
+        for x in name_calls:
+            nm = (call_name(x) or '').split('.')[-1]
+            arg = x.args[1] if nm == 'map_variables_directly' and len(x.args) > 1 else (x.args[2] if len(x.args) > 2 else None)
+            if arg is not None:
+                sources.add(node_text(arg, 80))
+
+        def is_src(e):
+            return node_text(e, 80) in sources
+
+        def leaf(e):
+            if is_src(e):
+                return True
+            if isinstance(e, ast.Compare) and len(e.ops) == 1 and is_src(e.left) and is_none(e.comparators[0]):
+                return isinstance(e.ops[0], (ast.IsNot, ast.NotEq))
+            return None
+        bad = None
+        ok_pos = True
+        for q in ps:
+            if q.kind != 'return':
+                continue
+            called = {(call_name(x) or '').split('.')[-1] for x in q.calls if isinstance(x, ast.Call)}
+            if not set(POS_PARSERS) <= called:
+                ok_pos = False
+            if called & set(NAME_PARSERS):
+                continue
+            if pathsem.consistent(q, leaf):
+                extra = [node_text(t_, 80) for t_, pol in q.conds if pathsem.eval_cond(t_, leaf) is None]
+                bad = (q, extra)
+                break
+        rep.decide(ok_pos, key + ' positional', fd, 'a1 / a[1] style variables are registered on every path', 'a path of get_variables_map returns without registering the positional variables')
+        if bad is not None:
+            rep.violated(key + ' names', bad[0].node, 'with column names present the name-based variables (a.name, a["name"]) are still skipped when `{}`: the query then binds differently (or fails to parse) through this front end only'.format(' / '.join(bad[1]) or 'always'))
+        else:
+            rep.holds(key + ' names', fd, 'name-based variables are registered whenever {} is present, whatever else holds'.format(' / '.join(sorted(sources - {'self.has_header'})) or 'the header'))
+    rep.require_count('iterators with name-based variables', n, 4 if port == 'py' else 2, (p.files[cx.engine_mod(port)], 0))
